@@ -2,7 +2,7 @@
 
   shipped-dumps       every historical dump in test/mitmproxy/data (solver-enumerated file x flow index): the real
                       FlowReader migrates and builds current flows; get_state() carries the current version; saving
-                      and loading again reproduces the state and the bytes; the pre-0.11 dump is rejected with a
+                      and loading again (twice) reproduces the state; the pre-0.11 dump is rejected with a
                       FlowReadException naming the version
   converter-table     (SMT, lifted from the current source of io/compat.py and version.py): for ALL ints v with
                       oldest <= v < FLOW_FORMAT_VERSION there is a converter; every converter's target version is
@@ -83,8 +83,10 @@ def h_dumps(X):
     X.check(out2 == "clean" and len(again) == 1, "C38/dumps/resave", f"{name}[{i}]: re-saved flow does not load: {out2}")
     st2 = again[0].get_state()
     X.check(F.typed_eq(st, st2), "C38/dumps/resave-state", f"{name}[{i}]: {F.first_diff(st, st2)}")
+    # (byte equality of successive saves is NOT demanded: the wire format reverses dict key order on every cycle)
     data2, _ = F.write_flows(again)
-    X.check(data2 == data, "C38/dumps/resave-bytes", f"{name}[{i}]: second save differs from the first")
+    third, out3 = F.read_stream(data2)
+    X.check(out3 == "clean" and len(third) == 1 and F.typed_eq(third[0].get_state(), st), "C38/dumps/resave-unstable", f"{name}[{i}]: state drifts over save/load cycles")
     # current-format states pass through migration unchanged
     cur = tnetstring.loads(data)
     snap = copy.deepcopy(cur)
@@ -290,29 +292,55 @@ def h_dispatch(X):
 # (iii) synthetic old states: inverses of the converters (state at version k+1 -> state at version k)
 
 
+class Opts:
+    """optional shapes of old states: at most `limit` of them deviate from the default shape on one path; which ones
+    is decided by the solver the first time an inverse asks (so options that do not apply to the chosen version range
+    cost no paths)"""
+
+    def __init__(self, X, limit):
+        self.X, self.limit, self.active = X, limit, []
+
+    def on(self, name):
+        if len(self.active) >= self.limit:
+            return False
+        if self.X.boolean("opt_" + name):
+            self.active.append(name)
+            return True
+        return False
+
+    def pick(self, name, menu):
+        menu = list(menu)
+        if len(self.active) >= self.limit:
+            return menu[0]
+        i = self.X.choose("opt_" + name, len(menu))
+        if i:
+            self.active.append(name)
+        return menu[i]
+
+
 def _conns(d):
     out = [d["client_conn"], d["server_conn"]]
     return out
 
 
-def inv_20(X, d):  # convert_20_21: tls_version "QUIC" -> "QUICv1"
+def inv_20(O, d):  # convert_20_21: tls_version "QUIC" -> "QUICv1"
     d["version"] = 20
     for c in _conns(d):
         if c["tls_version"] == "QUICv1":
             c["tls_version"] = "QUIC"
 
 
-def inv_19(X, d):  # convert_19_20: pops conn["state"] (if present)
+def inv_19(O, d):  # convert_19_20: pops conn["state"] (if present)
     d["version"] = 19
-    if X.boolean("v19_has_state"):
+    if O.on("v19_has_state"):
         d["client_conn"]["state"] = 0
         d["server_conn"]["state"] = 0
 
 
-def inv_18(X, d):  # convert_18_19: connection attribute renames
+def inv_18(O, d):  # convert_18_19: connection attribute renames
     d["version"] = 18
     cc, sc = d["client_conn"], d["server_conn"]
-    as_bytes = X.boolean("v18_bytes_hosts")
+    as_bytes = O.on("v18_bytes_hosts")
 
     def host(addr):
         if addr and as_bytes:
@@ -321,7 +349,7 @@ def inv_18(X, d):  # convert_18_19: connection attribute renames
 
     cc["address"] = host(cc.pop("peername"))
     cc["sockname"] = host(cc["sockname"])
-    cc["tls_extensions"] = X.choose("v18_tls_extensions", [None, []])
+    cc["tls_extensions"] = O.pick("v18_tls_extensions", [None, []])
     sc["ip_address"] = host(sc.pop("peername"))
     sc["source_address"] = host(sc.pop("sockname"))
     sc["address"] = host(sc["address"])
@@ -329,67 +357,69 @@ def inv_18(X, d):  # convert_18_19: connection attribute renames
     for c in (cc, sc):
         c["tls_established"] = c["tls"]
         c["cipher_name"] = c.pop("cipher")
-        if X.boolean("v18_no_transport_protocol") and c["transport_protocol"] == "tcp":
+        if c["transport_protocol"] == "tcp" and O.on("v18_no_transport_protocol"):
             c.pop("transport_protocol")
     sc["via"] = None
-    if sc["sni"] is not None and sc["address"] and sc["sni"] == (sc["address"][0] if not as_bytes else sc["address"][0].decode()) and X.boolean("v18_sni_true"):
+    if sc["sni"] is not None and sc["address"] and sc["sni"] == (sc["address"][0] if not as_bytes else sc["address"][0].decode()) and O.on("v18_sni_true"):
         sc["sni"] = True
 
 
-def inv_17(X, d):  # convert_17_18: client_conn["proxy_mode"] = "regular"
+def inv_17(O, d):  # convert_17_18: client_conn["proxy_mode"] = "regular"
     d["version"] = 17
     d["client_conn"].pop("proxy_mode")
 
 
-def inv_16(X, d):  # convert_16_17: pops "mode"
+def inv_16(O, d):  # convert_16_17: pops "mode"
     d["version"] = 16
-    m = X.choose("v16_mode", [None, "regular", "transparent", "reverse:https://example.com"])
+    m = O.pick("v16_mode", [None, "regular", "transparent", "reverse:https://example.com"])
     if m is not None:
         d["mode"] = m
 
 
-def inv_15(X, d):  # convert_15_16: timestamp_created = request.timestamp_start / client_conn.timestamp_start
+def inv_15(O, d):  # convert_15_16: timestamp_created = request.timestamp_start / client_conn.timestamp_start
     d["version"] = 15
     d.pop("timestamp_created")
 
 
-def inv_14(X, d):  # convert_14_15: websocket messages get an "injected" flag appended
+def inv_14(O, d):  # convert_14_15: websocket messages get an "injected" flag appended
     d["version"] = 14
     if d.get("websocket"):
         d["websocket"]["messages"] = [list(m)[:-1] for m in d["websocket"]["messages"]]
 
 
-def inv_13(X, d):  # convert_13_14: comment = ""; response timestamp bugfix
+def inv_13(O, d):  # convert_13_14: comment = ""; response timestamp bugfix
     d["version"] = 13
     d.pop("comment")
-    if d.get("response") and X.boolean("v13_response_without_timestamps"):
+    if d.get("response") and O.on("v13_response_without_timestamps"):
         d["response"]["timestamp_start"] = None
         d["response"]["timestamp_end"] = None
 
 
-def inv_12(X, d):  # convert_12_13: marked bool -> str
+def inv_12(O, d):  # convert_12_13: marked bool -> str
     d["version"] = 12
     d["marked"] = bool(d["marked"])
 
 
-def inv_11(X, d):  # convert_11_12: websocket key added (None for everything that is not an old websocket flow)
+def inv_11(O, d):  # convert_11_12: websocket key added (None for everything that is not an old websocket flow)
     d["version"] = 11
     d.pop("websocket", None)
 
 
-def inv_10(X, d):  # convert_10_11: sni to str, alpn rename, None -> []
+def inv_10(O, d):  # convert_10_11: sni to str, alpn rename, None -> []
     d["version"] = 10
     for c in _conns(d):
-        if c["sni"] is not None and c["sni"] is not True and X.boolean("v10_sni_bytes"):
+        if c["sni"] is True:
+            O.X.assume(False)  # sni=True only exists from format version 11 on
+        if c["sni"] is not None and c["sni"] is not True and O.on("v10_sni_bytes"):
             c["sni"] = c["sni"].encode()
         c["alpn_proto_negotiated"] = c.pop("alpn")
-        if not c["alpn_offers"] and X.boolean("v10_none_lists"):
+        if not c["alpn_offers"] and O.on("v10_none_lists"):
             c["alpn_offers"] = None
-        if not c["cipher_list"] and X.boolean("v10_none_lists2"):
+        if not c["cipher_list"] and O.on("v10_none_lists2"):
             c["cipher_list"] = None
 
 
-def inv_9(X, d):  # convert_9_10: new connection attributes
+def inv_9(O, d):  # convert_9_10: new connection attributes
     d["version"] = 9
     cc, sc = d["client_conn"], d["server_conn"]
     for c in (cc, sc):
@@ -404,38 +434,38 @@ def inv_9(X, d):  # convert_9_10: new connection attributes
     sc.pop("via2")
 
 
-def inv_8(X, d):  # convert_8_9: is_replay moved to the flow, authority added, first_line_format dropped
+def inv_8(O, d):  # convert_8_9: is_replay moved to the flow, authority added, first_line_format dropped
     d["version"] = 8
     r = d.pop("is_replay")
     if "request" in d:
-        d["request"]["first_line_format"] = X.choose("v8_form", ["relative", "absolute", "authority"])
+        d["request"]["first_line_format"] = O.pick("v8_form", ["relative", "absolute", "authority"])
         d["request"].pop("authority")
-        if X.boolean("v8_has_is_replay"):
+        if O.on("v8_has_is_replay"):
             d["request"]["is_replay"] = r == "request"
             if d.get("response"):
                 d["response"]["is_replay"] = r == "response"
 
 
-def inv_7(X, d):  # convert_7_8: trailers = None
+def inv_7(O, d):  # convert_7_8: trailers = None
     d["version"] = 7
     for m in ("request", "response"):
         if d.get(m):
             d[m].pop("trailers")
 
 
-def inv_6(X, d):  # convert_6_7: client tls_extensions = None
+def inv_6(O, d):  # convert_6_7: client tls_extensions = None
     d["version"] = 6
     d["client_conn"].pop("tls_extensions")
 
 
-def inv_5(X, d):  # convert_5_6: ssl_* -> tls_*
+def inv_5(O, d):  # convert_5_6: ssl_* -> tls_*
     d["version"] = 5
     for c in _conns(d):
         c["ssl_established"] = c.pop("tls_established")
         c["timestamp_ssl_setup"] = c.pop("timestamp_tls_setup")
 
 
-def inv_4(X, d):  # convert_4_5: connection ids
+def inv_4(O, d):  # convert_4_5: connection ids
     d["version"] = 4
     for c in _conns(d):
         c.pop("id")
@@ -447,7 +477,7 @@ INV = {20: inv_20, 19: inv_19, 18: inv_18, 17: inv_17, 16: inv_16, 15: inv_15, 1
 MIN_VERSION = {"http-req": 4, "http-resp": 4, "http-err": 4, "tcp": 4, "tcp-err": 4, "ws": 12, "dns-req": 17, "dns-resp": 17, "dns-err": 17, "udp": 19}
 
 
-def old_state(X, kind, k, variant=True):
+def old_state(X, kind, k, variant=True, limit=1):
     """current state of a test flow of `kind`, with solver-chosen content variants, pushed back to version k"""
     f = F.base_flow(kind)
     if variant:
@@ -470,9 +500,10 @@ def old_state(X, kind, k, variant=True):
     cur = F.norm(f.get_state())
     d = copy.deepcopy(cur)
     d.pop("backup")
+    O = Opts(X, limit)
     for step in range(20, k - 1, -1):
-        INV[step](X, d)
-    return f, cur, d
+        INV[step](O, d)
+    return f, cur, d, O.active
 
 
 def _project(st, k):
@@ -512,14 +543,15 @@ def _project(st, k):
     return p
 
 
-def h_synthetic(X, kinds):
+def h_synthetic(X, kinds, limit=1):
     from mitmproxy import version
     from mitmproxy.io import tnetstring
 
     kind = X.choose("kind", kinds)
     k = X.choose("old_version", list(range(MIN_VERSION[kind], version.FLOW_FORMAT_VERSION)))
-    f, cur, old = old_state(X, kind, k)
+    f, cur, old, active = old_state(X, kind, k, limit=limit)
     X.note("old_version", k)
+    X.note("options", active)
     data = tnetstring.dumps(old)
     what = f"{kind} flow pushed back to format version {k}"
     try:
@@ -535,6 +567,14 @@ def h_synthetic(X, kinds):
     X.check(st["version"] == version.FLOW_FORMAT_VERSION and type(g) is type(f), "C38/synthetic/version", f"{what}: loaded as {type(g).__name__} version {st['version']}")
     _touch(X, g, what, "C38/synthetic")
     got, exp = _project(F.norm(st), k), _project(cur, k)
+    if k <= 8:
+        # before version 9 the replay marker lived in request/response ("is_replay": bool); convert_8_9 lifts it to the flow
+        exp["is_replay"] = cur["is_replay"] if "v8_has_is_replay" in active else None
+        got["is_replay"] = st["is_replay"]
+    if "v13_response_without_timestamps" in active:
+        # convert_13_14 repairs missing response timestamps from the request's end time
+        exp["response"]["timestamp_start"] = cur["request"]["timestamp_end"]
+        exp["response"]["timestamp_end"] = cur["request"]["timestamp_end"] + 1
     if k <= 12:
         exp["marked"] = bool(cur["marked"])
         got["marked"] = bool(st["marked"])
@@ -556,19 +596,19 @@ def validate_inverses():
 
     class _X:  # fixed choices: the most common shape
         def choose(self, name, n):
-            if name == "v16_mode":
-                return "regular"
+            if name == "opt_v16_mode":
+                return 1
             return 0 if isinstance(n, int) else list(n)[0]
 
         def boolean(self, name):
-            return name in ("v19_has_state", "v18_no_transport_protocol")
+            return name in ("opt_v19_has_state", "opt_v18_no_transport_protocol")
 
     n = 0
     for fn, ver in (("dumpfile-10.mitm", 10), ("dumpfile-7.mitm", 11)):
         with open(os.path.join(DATA, fn), "rb") as f:
             real = tnetstring.load(f)
         assert real["version"] == ver, (fn, real["version"])
-        _, _, syn = old_state(_X(), "http-resp", ver, variant=False)
+        _, _, syn, _ = old_state(_X(), "http-resp", ver, variant=False, limit=99)
         for part in (None, "client_conn", "server_conn", "request"):
             a = set(real if part is None else real[part])
             b = set(syn if part is None else syn[part])
@@ -582,18 +622,18 @@ def obligations(tier):
     kinds = ["http-resp", "http-err", "tcp", "ws", "dns-resp", "udp"] if q else ["http-req", "http-resp", "http-err", "tcp", "tcp-err", "ws", "dns-req", "dns-resp", "dns-err", "udp"]
     return [
         Symx("shipped-dumps", h_dumps, bounds="8 shipped dump files (0.10 rejected; 0.11, 0.18, 0.19, 7 (two files, one with WebSocket flows), 10, 19) x every flow in them (13)",
-             encoded=[ENCODED[0], "mitmproxy.io.io:FlowReader.stream", "mitmproxy.flow:Flow.from_state"], must_reach=["loaded", "rejected-too-old"], budget_s=900),
+             encoded=[ENCODED[0], "mitmproxy.io.io:FlowReader.stream", "mitmproxy.flow:Flow.from_state"], must_reach=["loaded", "rejected-too-old"], budget_s=1800 if q else 7200),
         Smt("converter-table", build_table_queries, bounds="all integers (z3 Int): coverage of [oldest int key, FLOW_FORMAT_VERSION); per-entry target facts for all "
             "29 converters; table and targets lifted from the current source by AST", encoded=["mitmproxy.io.compat:migrate_flow"]),
         Symx("version-dispatch", h_dispatch, bounds="version = any int in [-2^31, 2^31] (symbolic) or legacy list [major 0..9, minor 0..30(, patch)] (symbolic) "
              "through the real migrate_flow loop", encoded=[ENCODED[0]], must_reach=["identity", "newer-rejected", "chain", "too-old-rejected", "tuple-rejected", "legacy-chain"],
-             stubs=["converter bodies -> version effect lifted from source", "compat.converters -> SymKeyDict", "compat.isinstance shim", "str(symint) -> '<sym>'"], budget_s=900),
-        Symx("synthetic-old-states", lambda X: h_synthetic(X, kinds),
+             stubs=["converter bodies -> version effect lifted from source", "compat.converters -> SymKeyDict", "compat.isinstance shim", "str(symint) -> '<sym>'"], budget_s=1800 if q else 7200),
+        Symx("synthetic-old-states", lambda X: h_synthetic(X, kinds, 1 if q else 2),
              bounds=f"{len(kinds)} flow shapes x every old format version from the first that could hold the shape (HTTP/TCP 4, WebSocket 12, DNS 17, UDP 19) to 20 x 6 "
-                    "content variants x solver-chosen optional shapes in each inverse step (bytes hosts, sni True, missing transport_protocol, None lists, mode, "
+                    f"content variants x <= {1 if q else 2} solver-chosen deviation(s) from the default shape among the optional shapes of the inverse steps (bytes hosts, sni True, missing transport_protocol, None lists, mode, "
                     "first_line_format, is_replay placement, response without timestamps, state attribute)",
              encoded=ENCODED, must_reach=["migrated", "from-4", "from-11", "from-18", "from-20", "kind-http", "kind-tcp", "kind-ws", "kind-dns", "kind-udp"],
-             parallel_depth=3, budget_s=1500),
+             parallel_depth=3, budget_s=1800 if q else 7200),
         Concrete("inverse-validation", validate_inverses, bounds="synthetic version-10/11 HTTP states vs shipped dumpfile-10 / dumpfile-7: key sets of state, client_conn, "
                  "server_conn, request"),
     ]
